@@ -133,6 +133,16 @@ func (bcs *ByteClassSet) SetByte(b byte) {
 	bcs.SetRange(b, b)
 }
 
+// SetWordByteRanges marks every maximal run of ASCII word bytes ([0-9], [A-Z],
+// '_', [a-z]) as a range, so that no equivalence class contains both a word byte
+// and a non-word byte. Required when the automaton contains \b or \B.
+func (bcs *ByteClassSet) SetWordByteRanges() {
+	bcs.SetRange('0', '9')
+	bcs.SetRange('A', 'Z')
+	bcs.SetByte('_')
+	bcs.SetRange('a', 'z')
+}
+
 // setBit sets bit i in the bitset
 func (bcs *ByteClassSet) setBit(b byte) {
 	word := b / 64
